@@ -265,6 +265,14 @@ def inline_call(caller_raw, b, helper_raw):
     seeds.append(loff)                       # the helper's return place
     if not dest["p"]:
         seeds.append(dest["l"])              # the call's destination
+    # the helper's parameters and the temporaries bound to them: a variant / constant passed by this call site (`None`,
+    # `Some(x)`, `true`) decides the helper's matches for this site only
+    for i, a in enumerate(t["args"]):
+        if i + 1 <= helper_raw["arg_count"]:
+            seeds.append(loff + 1 + i)
+            p = mir.op_place(a)
+            if p is not None and not p["p"]:
+                seeds.append(p["l"])
 
 
 def inline_at(prog, body, block):
